@@ -4,6 +4,6 @@ CHECKS['C11'] = dict(
     technique='exhaustive crash-point enumeration (cut after every emitted message, EOF, RST) x bounded API operation histories placed before/while/after the outage, on the real reactor under a virtual loop; reference peer table built from the next session',
     text='In the full virtual world the first session is lost at every point: during establishment, after each of the k-th written message for every k up to past the end of the initial batch (batches of 2, 25, 26 messages quick; 24 and 51 thorough, '
          'crossing the 25-per-iteration slicing), by EOF or RST when idle; with adj-rib-out kept (with and without group-updates) or not, the second session lost again during its establishment or inside its own batch. Histories of <=2 (thorough 3) real API commands are placed before the cut, while down and at re-establishment. '
-         'Every UPDATE of the next session is applied to an empty reference peer table: at quiescence the table must equal configured routes plus live API routes (nothing withdrawn while down), there must be exactly one End-of-RIB per negotiated family and none before the routes of the initial table.',
+         'Every UPDATE of the next session is applied to an empty reference peer table: at quiescence the table must equal configured routes plus live API routes (nothing withdrawn while down), there must be exactly one End-of-RIB per negotiated family and none before the routes of the initial table. The runs without adj-rib-out disable route-refresh (which would force the Adj-RIB-Out back on) and assert the cache flag of the RIB; in that mode the configured routes must come back, as the API left them or as configured.',
     note='Trusted: virtual loop, vt/ref/wire.PeerTable. A lost connection is modelled as EOF/RST on read or every further write failing. Outside: histories longer than the bound, several peers.',
 )
